@@ -462,13 +462,22 @@ def d2_cauchy(ctx):
     cfg = cfg_of(trm)
     # the variable handed to dogleg_step as Cauchy point
     cpname = None
+    radius = None
     for c in calls_in(trm):
         if isinstance(c.func, ast.Name) and c.func.id == "dogleg_step" and c.args and isinstance(c.args[0], ast.Name):
             cpname = c.args[0].id
+            if len(c.args) > 2 and isinstance(c.args[2], ast.Name):
+                radius = c.args[2].id
+    # the gradient: the local defined by a call of the objective's gradient method
+    aliases = {st.targets[0].id for st in ast.walk(trm.node) if isinstance(st, ast.Assign) and isinstance(st.targets[0], ast.Name)
+               and isinstance(st.value, ast.Attribute) and st.value.attr == "gradient"}
+    gnames = {st.targets[0].id for st in ast.walk(trm.node) if isinstance(st, ast.Assign) and isinstance(st.targets[0], ast.Name)
+              and isinstance(st.value, ast.Call) and ((isinstance(st.value.func, ast.Attribute) and st.value.func.attr == "gradient")
+                                                      or (isinstance(st.value.func, ast.Name) and st.value.func.id in aliases))}
     if cpname is None:
         raise Incomplete("dogleg_step call not found in trust_region_minimize")
     defs = [n for n in cfg.nodes if n.kind == "stmt" and any(cc == cpname for (cc, w) in cfg.defs_of(n))]
-    for n in defs:
+    for k_, n in enumerate(defs):
         a = n.ast
         facts = []
         for (c, l) in cfg.edge_facts(n):
@@ -478,29 +487,29 @@ def d2_cauchy(ctx):
         def resolver(name, n=n):
             d = single_def(cfg, n, name)
             return def_value(d, name) if d is not None else None
-        env = SignEnv(facts, assumptions={"trSize": "+"}, expander=resolver)
+        env = SignEnv(facts, assumptions={radius or "trSize": "+"}, expander=resolver)
         if isinstance(a, ast.Assign):
             v = a.value
             # coefficient of g
             coef = None
             if isinstance(v, ast.BinOp) and isinstance(v.op, ast.Mult):
                 for x, y in ((v.left, v.right), (v.right, v.left)):
-                    if isinstance(y, ast.Name) and y.id == "g":
+                    if isinstance(y, ast.Name) and y.id in gnames:
                         coef = x
-                    elif isinstance(y, ast.UnaryOp) and isinstance(y.op, ast.USub) and isinstance(y.operand, ast.Name) and y.operand.id == "g":
+                    elif isinstance(y, ast.UnaryOp) and isinstance(y.op, ast.USub) and isinstance(y.operand, ast.Name) and y.operand.id in gnames:
                         coef = ast.UnaryOp(op=ast.USub(), operand=x)
             if coef is None:
-                ctx.undecided(rule, trm, a, construct=f"cauchy-def:{src(a)[:50]}", detail="not a multiple of g")
+                ctx.undecided(rule, trm, a, construct=f"cauchy-def:{k_}", detail=f"`{src(a)[:60]}` is not a multiple of the gradient")
                 continue
             s = env.sign(coef)
             ok = True if is_nonpos(s) else (None if s == TOP else False)
-            ctx.decide(rule, ok, trm, a, construct=f"cauchy-coefficient:{src(a)[:50]}",
+            ctx.decide(rule, ok, trm, a, construct=f"cauchy-coefficient:def{k_}",
                        detail=f"coefficient of g has sign {s} ({'; '.join(env.used[-2:])})",
                        bad_detail=f"Cauchy point `{src(a)}`: coefficient of the gradient has sign {s}; it must be <= 0 (steepest descent)")
         elif isinstance(a, ast.AugAssign) and isinstance(a.op, ast.Mult):
             s = env.sign(a.value)
             ok = True if s in ("+", "0+") else (None if s == TOP else False)
-            ctx.decide(rule, ok, trm, a, construct=f"cauchy-rescale:{src(a)[:50]}", detail=f"rescaled by a factor of sign {s}",
+            ctx.decide(rule, ok, trm, a, construct=f"cauchy-rescale:def{k_}", detail=f"rescaled by a factor of sign {s}",
                        bad_detail=f"Cauchy point rescaled by `{src(a.value)}` of sign {s}: direction may flip")
 
 
